@@ -16,9 +16,12 @@ Definition chk_chunks (c : list (list Z) * list (list (Z * (Z * Z)))) : bool :=
   let '(chunks, exp) := c in list_eqb (list_eqb pzz_eqb) (map blk2z (enumerate_chunk_slices chunks)) exp.
 
 Definition oz_eqb (a : option Z) (b : Z) : bool := match a with Some x => x =? b | None => false end.
-Definition chk_raa (c : Z * list (list Z) * list Z) : bool :=
-  let '(cap, appends, exp) := c in
-  list_eqb oz_eqb (raa_to_array (fold_left raa_append appends (raa_init cap))) exp.
+(* a history: appends interleaved with to_array() observations; reads = [(k, observed array after the first k appends)] *)
+Definition chk_raa (c : Z * list (list Z) * list (Z * list Z)) : bool :=
+  let '(cap, appends, reads) := c in
+  forallb (fun rd => list_eqb oz_eqb
+                       (raa_to_array (fold_left raa_append (firstn (Z.to_nat (fst rd)) appends) (raa_init cap)))
+                       (snd rd)) reads.
 
 (* unions over finite sets of integers, as in the base class *)
 Definition zset := list Z.
